@@ -122,6 +122,15 @@ def gen_case(rng, i, tier):
             for r, v in zip(axis_roles, rng.sample(variants, len(axis_roles))):
                 ren[r] = v
             cats = sorted(set(cats) | {"case-variants"})
+    if len(axis_roles) == 3 and rng.random() < 0.3:
+        # a name that is two other names joined by an underscore (x, y, x_y; and the same for their centre dimensions) is
+        # still a name of its own
+        a0, a1, a2 = axis_roles
+        for r0, r1, r2 in ((a0, a1, a2), (f"dim:{a0}:center", f"dim:{a1}:center", f"dim:{a2}:center")):
+            cand = ren[r0] + "_" + ren[r1]
+            if cand not in ren.values():
+                ren[r2] = cand
+        cats = sorted(set(cats) | {"joined-names"})
     if kind == "ufunc" and rng.random() < 0.4:
         # dummy names live in a namespace of their own: they may be spelled like the real axes, in any order
         axs = [ren[a] for a in pos]
@@ -266,6 +275,13 @@ def scenario(desc, nm):
             out.append(("derivative", rec(lambda: g.derivative(da, spell(nm[a], how), to=p, boundary="extend"), inv)))
             out.append(("integrate", rec(lambda: g.integrate(da, spell(nm[a], how)), inv)))
             out.append(("integrate:all", rec(lambda: g.integrate(da, [nm[x] for x in A]), inv)))
+            if len(A) == 3:
+                # one request after another on the same Grid: the first two axes together, then the third alone, then each alone
+                out.append(("integrate:first-two", rec(lambda: g.integrate(da, [nm[A[0]], nm[A[1]]]), inv)))
+                out.append(("integrate:third", rec(lambda: g.integrate(da, nm[A[2]]), inv)))
+                out.append(("average:second", rec(lambda: g.average(da, [nm[A[1]]]), inv)))
+                out.append(("get_metric:first-two", rec(lambda: g.get_metric(da, [nm[A[0]], nm[A[1]]]), inv)))
+                out.append(("get_metric:third", rec(lambda: g.get_metric(da, [nm[A[2]]]), inv)))
             out.append(("average", rec(lambda: g.average(da, spell(nm[a], how)), inv)))
             out.append(("cumint", rec(lambda: g.cumint(da, spell(nm[a], how), to=p, boundary="fill"), inv)))
             out.append(("get_metric", rec(lambda: g.get_metric(da, spell(nm[a], how)), inv)))
